@@ -14,9 +14,9 @@
 package peerstream
 
 import (
-	"os"
 	"errors"
 	"fmt"
+	"os"
 	"sort"
 	"strings"
 	"testing"
@@ -46,11 +46,14 @@ import (
 // ---------------------------------------------------------------------------------------------
 
 var (
-	zvPeers     = []string{"peerA", "peerB"}
-	zvPeerIDs   = map[string]string{"peerA": "00000701-aaaa-bbbb-cccc-000000000701", "peerB": "00000702-aaaa-bbbb-cccc-000000000702"}
-	zvNodeNames = []string{"n1", "n2", "n3"}
-	zvSvcNames  = []string{"web", "db", "api", "web-sidecar-proxy"}
-	zvBaseSvcs  = []string{"web", "db", "api"}
+	zvPeers   = []string{"peerA", "peerB"}
+	zvPeerIDs = map[string]string{"peerA": "00000701-aaaa-bbbb-cccc-000000000701", "peerB": "00000702-aaaa-bbbb-cccc-000000000702"}
+	// case-folded node names; the local cluster spells them like this, every exporter world picks its
+	// own spelling per node (lower-case, Mixed-Case or UPPER-CASE; one node per case-folded name)
+	zvNodeNames  = []string{"node-a", "node-b", "win-7qk2b"}
+	zvNodeSpells = map[string][]string{"node-a": {"Node-A", "NODE-A"}, "node-b": {"Node-B", "NODE-B"}, "win-7qk2b": {"WIN-7QK2B", "Win-7qk2B"}}
+	zvSvcNames   = []string{"web", "db", "api", "web-sidecar-proxy"}
+	zvBaseSvcs   = []string{"web", "db", "api"}
 )
 
 const zvProxySuffix = "-sidecar-proxy"
@@ -121,7 +124,8 @@ func (b *zvBackend) CatalogDeregister(req *structs.DeregisterRequest) error {
 type zvChk struct{ ID, Name, Status, Output, Notes string }
 
 type zvNd struct {
-	Name, ID, Addr, DC string
+	Key                string // case-folded name (world map key)
+	Name, ID, Addr, DC string // Name: the exporter's spelling, constant for the whole history
 	Meta, TAddr        map[string]string
 	Checks             map[string]*zvChk
 }
@@ -139,7 +143,8 @@ type zvWorld struct {
 	peer     string
 	pidx     int
 	idBase   int
-	idless   bool // an exporter whose nodes were registered without node IDs
+	idless   bool              // an exporter whose nodes were registered without node IDs
+	spell    map[string]string // case-folded node name -> this exporter's spelling
 	fresh    int
 	nodes    map[string]*zvNd
 	insts    map[string]*zvIn // svc|node|id
@@ -149,7 +154,17 @@ type zvWorld struct {
 }
 
 func zvNewWorld(peer string, pidx int, idBase int, r *core.Rand) *zvWorld {
-	w := &zvWorld{peer: peer, pidx: pidx, idBase: idBase, nodes: map[string]*zvNd{}, insts: map[string]*zvIn{}, exported: map[string]bool{}}
+	w := &zvWorld{peer: peer, pidx: pidx, idBase: idBase, nodes: map[string]*zvNd{}, insts: map[string]*zvIn{}, exported: map[string]bool{}, spell: map[string]string{}}
+	// node-name spelling: 35% of the exporters are all lower-case, the others capitalise most names
+	// (hosts called Node-A / WIN-7QK2B). The catalog matches node names case-insensitively.
+	sr := r.Fork(4242)
+	allLower := sr.Chance(35)
+	for _, n := range zvNodeNames {
+		w.spell[n] = n
+		if !allLower && sr.Chance(70) {
+			w.spell[n] = core.Pick(sr, zvNodeSpells[n])
+		}
+	}
 	w.idless = r.Chance(35)
 	for _, s := range zvBaseSvcs {
 		w.exported[s] = r.Chance(90)
@@ -178,7 +193,7 @@ func (w *zvWorld) node(name string, r *core.Rand) *zvNd {
 			ni = i
 		}
 	}
-	n := &zvNd{Name: name, ID: zvUUID(w.idBase + ni + 1), Addr: fmt.Sprintf("10.%d.0.%d", w.pidx+1, ni+1), DC: "dc-" + w.peer,
+	n := &zvNd{Key: name, Name: w.spell[name], ID: zvUUID(w.idBase + ni + 1), Addr: fmt.Sprintf("10.%d.0.%d", w.pidx+1, ni+1), DC: "dc-" + w.peer,
 		Meta: map[string]string{"rack": "r1"}, Checks: map[string]*zvChk{}}
 	if r.Chance(65) {
 		n.Checks["mem"] = &zvChk{ID: "mem", Name: "memory", Status: api.HealthPassing}
@@ -341,7 +356,7 @@ func (w *zvWorld) mutate(r *core.Rand) (string, []string) {
 		default:
 			n.DC = "dc-" + w.peer + fmt.Sprint(r.Intn(2))
 		}
-		return "change node " + n.Name, w.servicesOn(n.Name)
+		return "change node " + n.Name, w.servicesOn(n.Key)
 	case op < 80: // node-level check add / remove / change
 		in := w.insts[core.Pick(r, keys)]
 		n := w.nodes[in.Node]
@@ -349,14 +364,14 @@ func (w *zvWorld) mutate(r *core.Rand) (string, []string) {
 		if c, ok := n.Checks[id]; ok {
 			if r.Chance(50) {
 				delete(n.Checks, id)
-				return "remove node check " + id + " on " + n.Name, w.servicesOn(n.Name)
+				return "remove node check " + id + " on " + n.Name, w.servicesOn(n.Key)
 			}
 			c.Status = zvStatus(r)
 			c.Output = "o" + fmt.Sprint(r.Intn(3))
-			return "change node check " + id + " on " + n.Name, w.servicesOn(n.Name)
+			return "change node check " + id + " on " + n.Name, w.servicesOn(n.Key)
 		}
 		n.Checks[id] = &zvChk{ID: id, Name: "node-" + id, Status: zvStatus(r)}
-		return "add node check " + id + " on " + n.Name, w.servicesOn(n.Name)
+		return "add node check " + id + " on " + n.Name, w.servicesOn(n.Key)
 	case op < 95: // service-level check add / remove / change
 		in := w.insts[core.Pick(r, keys)]
 		id := core.Pick(r, []string{in.ID + ":overall-check", "chk-" + in.ID})
@@ -668,23 +683,24 @@ func zvSharedIndexAllowed(key string) bool {
 // ---------------------------------------------------------------------------------------------
 
 type zvHist struct {
-	script []zvScriptStep
-	run     *core.Run
-	h       int
-	r       *fsmkit.Replica
-	idx     uint64
-	ops     []string
-	log     []string
-	srv     *Server
-	mst     map[string]*MutableStatus
-	worlds  map[string]*zvWorld
-	last    map[string]map[string]map[string]zvEnt // peer -> service -> entry key -> expectation
-	sentLst map[string][]string
-	prev    map[string][]string
-	part    string
-	nonce   int
-	localID map[string]string
-	dead    bool
+	script   []zvScriptStep
+	mcStreak map[string]int // peer|service -> consecutive upserts that carried an already imported mixed-case node
+	run      *core.Run
+	h        int
+	r        *fsmkit.Replica
+	idx      uint64
+	ops      []string
+	log      []string
+	srv      *Server
+	mst      map[string]*MutableStatus
+	worlds   map[string]*zvWorld
+	last     map[string]map[string]map[string]zvEnt // peer -> service -> entry key -> expectation
+	sentLst  map[string][]string
+	prev     map[string][]string
+	part     string
+	nonce    int
+	localID  map[string]string
+	dead     bool
 }
 
 func (z *zvHist) applyLocal(t structs.MessageType, req any, what string) {
@@ -742,7 +758,7 @@ func (z *zvHist) seedLocal(r *core.Rand) {
 	}
 	// local catalog with the same names as the peers use
 	for _, n := range zvNodeNames {
-		if n == "n3" && r.Chance(50) {
+		if n == zvNodeNames[2] && r.Chance(50) {
 			continue
 		}
 		chk := []*structs.HealthCheck{{Node: n, CheckID: "serfHealth", Name: "Serf Health Status", Status: api.HealthPassing}}
@@ -776,12 +792,12 @@ func (z *zvHist) seedLocal(r *core.Rand) {
 	// session bound to a local node check whose ID the peers use too, a lock held by it, plain KV, coordinates
 	sid := zvUUID(9000 + z.h%7)
 	z.applyLocal(structs.SessionRequestType, &structs.SessionRequest{Datacenter: "dc1", Op: structs.SessionCreate,
-		Session: structs.Session{ID: sid, Node: "n1", NodeChecks: []string{"serfHealth", "mem"}, Behavior: structs.SessionKeysDelete}}, "session on n1 bound to checks serfHealth+mem")
+		Session: structs.Session{ID: sid, Node: zvNodeNames[0], NodeChecks: []string{"serfHealth", "mem"}, Behavior: structs.SessionKeysDelete}}, "session on n1 bound to checks serfHealth+mem")
 	z.applyLocal(structs.SessionRequestType, &structs.SessionRequest{Datacenter: "dc1", Op: structs.SessionCreate,
-		Session: structs.Session{ID: zvUUID(9100), Node: "n2", NodeChecks: []string{"serfHealth"}}}, "session on n2 bound to serfHealth")
+		Session: structs.Session{ID: zvUUID(9100), Node: zvNodeNames[1], NodeChecks: []string{"serfHealth"}}}, "session on n2 bound to serfHealth")
 	z.applyLocal(structs.KVSRequestType, &structs.KVSRequest{Datacenter: "dc1", Op: api.KVLock, DirEnt: structs.DirEntry{Key: "lock/n1", Value: []byte("x"), Session: sid}}, "kv lock lock/n1")
 	z.applyLocal(structs.KVSRequestType, &structs.KVSRequest{Datacenter: "dc1", Op: api.KVSet, DirEnt: structs.DirEntry{Key: "peerA/web", Value: []byte("v")}}, "kv set peerA/web")
-	z.applyLocal(structs.CoordinateBatchUpdateType, structs.Coordinates{{Node: "n1", Coord: coordinate.NewCoordinate(coordinate.DefaultConfig())}}, "coordinate n1")
+	z.applyLocal(structs.CoordinateBatchUpdateType, structs.Coordinates{{Node: zvNodeNames[0], Coord: coordinate.NewCoordinate(coordinate.DefaultConfig())}}, "coordinate n1")
 }
 
 func (z *zvHist) localMutation(r *core.Rand) {
@@ -963,6 +979,9 @@ func (z *zvHist) step(step int, r *core.Rand) {
 	z.ops = z.ops[:0]
 	var desc string
 	var ok bool
+	if kind == "upsert" {
+		z.countMixedCase(svc, peer, w, priorObs[svc], scripted != nil)
+	}
 	var emsg string
 	var list []string
 	var sentExp map[string]zvEnt
@@ -1359,6 +1378,82 @@ func (z *zvHist) step(step int, r *core.Rand) {
 	run.Distinct("prior-depth", fmt.Sprint(step))
 }
 
+func zvMixed(s string) bool { return s != strings.ToLower(s) }
+
+// countMixedCase classifies (coverage only) what the snapshot about to be sent does to entries that
+// live on nodes whose exported name contains capitals and that are ALREADY imported.
+func (z *zvHist) countMixedCase(svc, peer string, w *zvWorld, prior map[string]zvEnt, scripted bool) {
+	run := z.run
+	_, exp := w.snapshot(svc)
+	split := func(k string) (string, string) { i := strings.IndexByte(k, '|'); return k[:i], k[i+1:] }
+	snapNodes := map[string]bool{}
+	for k := range exp {
+		n, _ := split(k)
+		snapNodes[n] = true
+	}
+	carried := false
+	for k, e := range exp {
+		n, id := split(k)
+		if !zvMixed(n) {
+			continue
+		}
+		run.Count("mixedcase:snapshot-entries")
+		if o, ok := prior[k]; ok {
+			carried = true
+			switch {
+			case core.JSON(o) == core.JSON(e):
+				run.Count("mixedcase:already-imported-entry:unchanged")
+			case core.JSON(o.SC) != core.JSON(e.SC) || core.JSON(o.NC) != core.JSON(e.NC):
+				run.Count("mixedcase:already-imported-entry:check-changed")
+			default:
+				run.Count("mixedcase:already-imported-entry:fields-changed")
+			}
+			continue
+		}
+		for pk := range prior {
+			if pn, pid := split(pk); pid == id && pn != n {
+				if _, still := exp[pk]; !still {
+					run.Count("mixedcase:instance-moved-onto-mixed-case-node")
+				}
+			}
+		}
+	}
+	touchedPrior := false
+	for pk := range prior {
+		pn, pid := split(pk)
+		if !zvMixed(pn) {
+			continue
+		}
+		if _, still := exp[pk]; still {
+			continue
+		}
+		touchedPrior = true
+		run.Count("mixedcase:imported-entry-absent-from-snapshot")
+		for k := range exp {
+			if n, id := split(k); id == pid && n != pn {
+				run.Count("mixedcase:instance-moved-off-mixed-case-node")
+				break
+			}
+		}
+		if !snapNodes[pn] {
+			run.Count("mixedcase:node-dropped-from-snapshot")
+		}
+	}
+	key := peer + "|" + svc
+	if carried || touchedPrior {
+		run.Count("updates-with-mixed-case-node-already-imported")
+		if scripted {
+			run.Count("scripted-updates-with-mixed-case-node-already-imported")
+		}
+		z.mcStreak[key]++
+		if z.mcStreak[key] >= 2 {
+			run.Count("mixedcase:third-or-later-snapshot-touching-imported-mixed-case-node")
+		}
+	} else {
+		z.mcStreak[key] = 0
+	}
+}
+
 func zvOwnerClass(o string) string {
 	if o == "" {
 		return "local"
@@ -1426,7 +1521,7 @@ func zvFleetScript(svc string, order []string) []zvScriptStep {
 
 func zvRunHistory(run *core.Run, h int, r *core.Rand, steps int) {
 	z := &zvHist{run: run, h: h, mst: map[string]*MutableStatus{}, worlds: map[string]*zvWorld{}, last: map[string]map[string]map[string]zvEnt{},
-		sentLst: map[string][]string{}, localID: map[string]string{}}
+		sentLst: map[string][]string{}, localID: map[string]string{}, mcStreak: map[string]int{}}
 	z.prev = map[string][]string{}
 	z.r = fsmkit.New(fsmkit.Opts{})
 	defer z.r.Close()
@@ -1459,13 +1554,24 @@ func zvRunHistory(run *core.Run, h int, r *core.Rand, steps int) {
 		}
 		z.mst[p] = m
 	}
+	na, nb, nc := zvNodeNames[0], zvNodeNames[1], zvNodeNames[2]
+	if h%10 == 3 && h/10%4 != 3 {
+		// three of four scripted fleet scenarios run on an exporter whose hosts are all capitalised
+		for _, n := range zvNodeNames {
+			z.worlds[zvPeers[0]].spell[n] = zvNodeSpells[n][h/10%2]
+		}
+		for _, nd := range z.worlds[zvPeers[0]].nodes {
+			nd.Name = z.worlds[zvPeers[0]].spell[nd.Key]
+		}
+		run.Count("fleet-scenarios-on-mixed-case-nodes")
+	}
 	for s := 0; s < steps && !z.dead && run.Violations() < 30; s++ {
 		if r.Chance(20) {
 			z.localMutation(r)
 		}
 		// every 10th history: after a few random updates run the fleet scenario, then go on randomly
 		if h%10 == 3 && s == 4 {
-			z.script = zvFleetScript(zvSvcNames[h/10%len(zvSvcNames)], [][]string{{"n1", "n2", "n3"}, {"n2", "n1", "n3"}, {"n3", "n1", "n2"}}[h/10%3])
+			z.script = zvFleetScript(zvSvcNames[h/10%len(zvSvcNames)], [][]string{{na, nb, nc}, {nb, na, nc}, {nc, na, nb}}[h/10%3])
 			run.Count("fleet-scenarios")
 		}
 		z.step(s, r)
@@ -1670,7 +1776,7 @@ func zvExportSide(run *core.Run) {
 
 func TestZZVerifC17(t *testing.T) {
 	run := core.NewRun("C17", "exploration",
-		"IMPORT: PRNG histories against the real peerstream.Server.processResponse + real FSM/state store: local catalog/KV/session/config-entry seeding with node names, node IDs, service names, service IDs and check IDs COLLIDING between local, peerA and peerB; then 12 updates (each one (prior,update) pair, priors built by 0..11 earlier updates, exporter catalogs pre-populated): an exporter world model is mutated (instances added/removed/moved between nodes, node shared by services, node/service fields, node-level and service-level checks, node replaced, service dropped) and either the snapshot of one service (possibly stale w.r.t. other services, empty = delete) or the exported-services list (shrink/grow/empty) is sent. After every update: MIRROR of all services of that peer vs the model, RESIDUE (orphans), ISOLATION (dump of all tables restricted to rows not owned by the updated peer identical). non-trivial pair = prior state holds rows of the peer, a local/other-peer row collides by name with rows the update touches, and the update changed the peer's rows; distinct by hash of the full history log. EXPORT: exhaustive: 8 catalogs {a,b,c} x {plain, connect+resolver} x (no entry + 5^3 consumer assignments {none,p,q,both,split} of {exact a, exact b, wildcard} x {with/without exact 'consul'}) x 4 queried peers, each compared with an independent recomputation; non-trivial = configuration that discriminates between p and q")
+		"IMPORT: PRNG histories against the real peerstream.Server.processResponse + real FSM/state store: local catalog/KV/session/config-entry seeding with node names, node IDs, service names, service IDs and check IDs COLLIDING between local, peerA and peerB (node names collide case-insensitively: every exporter spells each node lower-case, Mixed-Case or UPPER-CASE, one node per case-folded name, spelling constant per history); then 12 updates (each one (prior,update) pair, priors built by 0..11 earlier updates, exporter catalogs pre-populated): an exporter world model is mutated (instances added/removed/moved between nodes, node shared by services, node/service fields, node-level and service-level checks, node replaced, service dropped) and either the snapshot of one service (possibly stale w.r.t. other services, empty = delete) or the exported-services list (shrink/grow/empty) is sent. After every update: MIRROR of all services of that peer vs the model, RESIDUE (orphans), ISOLATION (dump of all tables restricted to rows not owned by the updated peer identical). non-trivial pair = prior state holds rows of the peer, a local/other-peer row collides by name with rows the update touches, and the update changed the peer's rows; distinct by hash of the full history log. EXPORT: exhaustive: 8 catalogs {a,b,c} x {plain, connect+resolver} x (no entry + 5^3 consumer assignments {none,p,q,both,split} of {exact a, exact b, wildcard} x {with/without exact 'consul'}) x 4 queried peers, each compared with an independent recomputation; non-trivial = configuration that discriminates between p and q")
 	run.Assume(
 		"node-level data is shared by all services of a peer on that node: for the updated service strict equality of node-level checks is demanded for entries that existed before; when an entry is NEW on an already imported node, node checks that were stored before and are absent from the snapshot may remain (they stem from other services' snapshots); node fields are last-writer-wins",
 		"documented rewrites ignored in MIRROR: PeerName/partition overridden by the importer, raft indexes, the consul-virtual tagged address the importing store assigns to connect proxies, ServiceTags copied onto checks by the store; Locality is not modelled (Node.ToRegisterRequest drops it)",
@@ -1698,6 +1804,17 @@ func TestZZVerifC17(t *testing.T) {
 		run.Floor("effect:"+c, min)
 	}
 	run.Floor("pairs:upsert", 4000)
+	// node names with capitals (the catalog is case-insensitive, the importer compares names itself)
+	run.Floor("updates-with-mixed-case-node-already-imported", 400)
+	run.Floor("scripted-updates-with-mixed-case-node-already-imported", 60)
+	run.Floor("fleet-scenarios-on-mixed-case-nodes", 15)
+	run.Floor("mixedcase:already-imported-entry:unchanged", 250)
+	run.Floor("mixedcase:already-imported-entry:check-changed", 100)
+	run.Floor("mixedcase:already-imported-entry:fields-changed", 100)
+	run.Floor("mixedcase:instance-moved-off-mixed-case-node", 50)
+	run.Floor("mixedcase:instance-moved-onto-mixed-case-node", 40)
+	run.Floor("mixedcase:node-dropped-from-snapshot", 100)
+	run.Floor("mixedcase:third-or-later-snapshot-touching-imported-mixed-case-node", 150)
 	run.Floor("pairs:list", 1000)
 	run.FloorDistinct("prior-depth", steps)
 	run.Floor("collision:node-name:local", 3000)
